@@ -243,10 +243,13 @@ impl Property for C07 {
                 let ss = SighashSignature::new(&sig, SigHash::InputsOutputs, &[]);
                 let sig_bytes = ss.to_bytes().map_err(|e| failure("sighash_signature_to_bytes", e.to_string(), "Ok"))?;
                 let want_unlock = gs::to_bytes(&[push_el(&sig_bytes), push_el(&want_pub)]);
-                for (name, a) in [("mainnet", &addr), ("re-prefixed", &re)] {
+                // … also for the address parsed back from its string, and for that one moved back to mainnet
+                let back_to_main = lib_call("set_chain_params", || parsed.set_chain_params(&params(0)))?.map_err(|e| failure("set_chain_params", e.to_string(), "Ok"))?;
+                ensure_eq!(back_to_main.to_string().map_err(|e| e.to_string()), Ok(codec::p2pkh_address(0, &h)), "reprefix_back_to_mainnet");
+                for (name, a) in [("mainnet", &addr), ("re-prefixed", &re), ("parsed from its string", &parsed), ("parsed and moved back to mainnet", &back_to_main)] {
                     match lib_call("get_unlocking_script", || a.get_unlocking_script(&pk, &ss))? {
                         Ok(s) => ensure_eq_hex!(s.to_bytes(), want_unlock, "unlocking_script_bytes"),
-                        Err(e) => return Err(failure("unlocking_script_own_key", format!("Err({}) for the {} address (prefix {:#04x})", e, name, if name == "mainnet" { 0 } else { *prefix }), "Ok: the address's own public key")),
+                        Err(e) => return Err(failure("unlocking_script_own_key", format!("Err({}) for the {} address (prefix {:#04x})", e, name, if name.contains("mainnet") { 0 } else { *prefix }), "Ok: the address's own public key")),
                     }
                 }
                 let od = other.value();
